@@ -121,3 +121,203 @@ func OracleC06(w *W2Run) []Violation {
 	}
 	return out
 }
+
+// ---- C07: hot updates are atomic per execution and visible afterwards -----------------
+
+type updRec struct {
+	op         *MgmtOp
+	begin, end int64
+	name       string
+}
+
+func stateChanging(o *MgmtOp) bool {
+	switch o.Kind {
+	case OpFull, OpIncr, OpClear:
+		return true
+	case OpRemove:
+		return len(o.Names) > 0
+	}
+	return false
+}
+
+// matchesState reports whether the observed execution of a call is what state s prescribes.
+func matchesState(w *W2Run, v *CallView, s SetModel) (bool, string) {
+	for _, x := range v.Execs {
+		m, ok := s[x.Rule]
+		if !ok {
+			return false, fmt.Sprintf("rule %d ran but is not in the set", x.Rule)
+		}
+		if m.Ver != x.Ver {
+			return false, fmt.Sprintf("rule %d ran as v%d, the set has v%d", x.Rule, x.Ver, m.Ver)
+		}
+	}
+	if len(s) == 0 {
+		return true, ""
+	}
+	rs := s.ruleSet()
+	vs := CheckAgainstSpecs(v, SpecsFor(v.C, rs, w.EM), rs)
+	if len(vs) > 0 {
+		return false, vs[0].Clause + ": " + vs[0].Msg
+	}
+	return true, ""
+}
+
+func obsSet(v *CallView) string {
+	s := "{"
+	for i, x := range v.Execs {
+		if i > 0 {
+			s += " "
+		}
+		s += fmt.Sprintf("%d:v%d", x.Rule, x.Ver)
+	}
+	return s + "}"
+}
+
+// OracleC07 searches a serialisation of the successful updates, consistent with
+// their real-time order, under which every execution ran exactly one installed
+// version that is neither older than an update that had returned before the
+// execution was invoked nor newer than one invoked after it returned.
+func OracleC07(w *W2Run) []Violation {
+	var out []Violation
+	if w.Run.End != 0 {
+		return out // abandoned run: the run-level verdict speaks
+	}
+	var ups []updRec
+	for ai, ops := range w.Ops {
+		for k, op := range ops {
+			r := w.OpRes[ai][k]
+			if !r.Done {
+				continue
+			}
+			if r.Panicked != "" {
+				out = append(out, Violation{Clause: "mgmt-panic", Method: opKindNames[op.Kind], Msg: fmt.Sprintf("management operation %s panicked: %s", op, firstLine(r.Panicked))})
+				return out
+			}
+			if op.Invalid && r.Err == nil {
+				out = append(out, Violation{Clause: "invalid-text-accepted", Method: opKindNames[op.Kind], Msg: fmt.Sprintf("%s: a broken text was accepted", op)})
+			}
+			if r.Err == nil && stateChanging(op) {
+				ups = append(ups, updRec{op, r.Begin, r.End, fmt.Sprintf("a%d.%d %s", ai, k, op)})
+			}
+		}
+	}
+	sort.Slice(ups, func(i, j int) bool { return ups[i].begin < ups[j].begin })
+	n := len(ups)
+	w.Out.count("probe/successful_updates", int64(n))
+	var execs []*CallView
+	for _, c := range w.Sc.Calls {
+		v := w.Views[c.Idx]
+		c.mu.Lock()
+		done := c.Done
+		c.mu.Unlock()
+		if done && v.CB >= 0 && v.CR >= 0 && !w.NilTag[c.Idx] {
+			if c.Panicked {
+				out = append(out, Violation{Clause: "api-panic", Detail: c.PanicSite, Method: MethodNames[c.Method], Msg: fmt.Sprintf("%s: panic escaped the call: %s", c, firstLine(c.PanicVal))})
+				continue
+			}
+			execs = append(execs, v)
+			for _, u := range ups {
+				if u.begin > v.CB && u.end < v.CR {
+					w.Out.count("fault_fired/update_landed_inside_an_execution", 1)
+				}
+			}
+		}
+	}
+	init := modelOf(w.Rules)
+	// enumerate linear extensions
+	perm := make([]int, 0, n)
+	used := make([]bool, n)
+	tried := 0
+	var firstWhy string
+	var found bool
+	var rec func()
+	check := func() bool {
+		states := make([]SetModel, n+1)
+		states[0] = init
+		pos := make([]int, n)
+		for i, u := range perm {
+			states[i+1] = states[i].apply(ups[u].op)
+			pos[u] = i
+		}
+		for _, v := range execs {
+			kmin, kmax := 0, n
+			for u := range ups {
+				if ups[u].end < v.CB && pos[u]+1 > kmin {
+					kmin = pos[u] + 1
+				}
+				if ups[u].begin > v.CR && pos[u] < kmax {
+					kmax = pos[u]
+				}
+			}
+			ok := false
+			why := ""
+			for k := kmin; k <= kmax; k++ {
+				m, y := matchesState(w, v, states[k])
+				if m {
+					ok = true
+					break
+				}
+				why += fmt.Sprintf(" [state %d %v: %s]", k, states[k], y)
+			}
+			if !ok {
+				if firstWhy == "" {
+					firstWhy = fmt.Sprintf("%s (invoked #%d, returned #%d) ran %s, which is not exactly one admissible installed version:%s", v.C, v.CB, v.CR, obsSet(v), why)
+				}
+				return false
+			}
+		}
+		return true
+	}
+	rec = func() {
+		if found || tried > 3000 {
+			return
+		}
+		if len(perm) == n {
+			tried++
+			if check() {
+				found = true
+			}
+			return
+		}
+		for i := 0; i < n; i++ {
+			if used[i] {
+				continue
+			}
+			// i may come next only if every update that returned before i was invoked is already placed
+			ok := true
+			for j := 0; j < n; j++ {
+				if !used[j] && j != i && ups[j].end < ups[i].begin {
+					ok = false
+				}
+			}
+			if !ok {
+				continue
+			}
+			used[i] = true
+			perm = append(perm, i)
+			rec()
+			perm = perm[:len(perm)-1]
+			used[i] = false
+		}
+	}
+	rec()
+	if !found && tried <= 3000 {
+		names := ""
+		for _, u := range ups {
+			names += fmt.Sprintf("(%s #%d..#%d) ", u.name, u.begin, u.end)
+		}
+		m := ""
+		if len(firstWhy) > 0 {
+			m = firstWhy
+		}
+		meth := ""
+		for _, v := range execs {
+			_ = v
+		}
+		out = append(out, Violation{Clause: "not-one-installed-version", Method: meth, Msg: fmt.Sprintf("no serialisation of the %d successful updates %sexplains every execution; under the first one tried: %s", n, names, m)})
+	}
+	if tried > 3000 {
+		w.Out.count("probe/c07_serialisations_cap_hit", 1)
+	}
+	return out
+}
